@@ -3,6 +3,10 @@
 ENGINES = [
     {"name": "E1", "path": "sa/model.py, sa/calls.py, sa/cfg.py", "serves_properties": ["C01", "C02", "C03", "C05", "C06", "C07", "C08", "C11", "C12", "C14", "C15", "C17", "C18", "C19", "C20"],
      "kind_free_text": "resolved program model: ast tables, mypy-as-library expression types, call-site resolution incl. operator dispatch, context-pruned reachability, statement CFG with dominators"},
+    {"name": "E4", "path": "sa/absint.py, sa/specs.py, sa/poly.py, sa/algebra.py, sa/quantity_rules.py, sa/e4util.py", "serves_properties": ["C01", "C02", "C03", "C05", "C06", "C10", "C11", "C14", "C18"],
+     "kind_free_text": "physical-value abstract interpretation: units-of-measure typing and polynomial normal forms over the library's own operator bodies"},
+    {"name": "E6", "path": "sa/grammar.py", "serves_properties": ["C13", "C15", "C16", "C17"],
+     "kind_free_text": "table extraction from the generated parser, reference LALR construction with Lark, automaton isomorphism, table-driven LALR driver"},
     {"name": "E5", "path": "sa/decl.py, sa/num.py", "serves_properties": ["C05", "C09", "C10", "C11", "C13", "C18", "C19"],
      "kind_free_text": "partial evaluator for the module-level declaration DSL in exact rational arithmetic; multiplicative Gaussian elimination over unit sizes"},
 ]
@@ -47,6 +51,13 @@ CHECKS = {
         "level_text": "Decides the structural half of the property for all inputs: stored directions are mutual inverses and oriented as [from][to] = v(from)/v(to); for fixed units convert is m -> A*m + B with A, B independent of m and returns the requested unit; the search reads both tables in one direction and orders hops; declared ratios are positive and offset scales are leaves (so B = 0 between offset-free units). Numerical agreement of routes is NOT decided (needs C04 and C09).",
         "design_ref": "DESIGN.md section 4, C05",
         "level_note": E4_NOTE + " Not decided: round-trip / route-independence numerics; exponent handling of multi-hop paths between powers of units (planner heuristics).",
+    },
+    "C16": {
+        "engine": "E6",
+        "technique": "translation validation: the grammar is compiled with Lark as the Makefile does; terminals, rules (up to renaming of generated helper nonterminals), options and the LALR automaton (isomorphism by BFS from the start states) are compared with the tables extracted from _parser.py by an AST literal evaluator",
+        "level_text": "Same terminals, same rules including tree-shaping options, and isomorphic LALR tables run by the same table-driven runtime accept the same language and build the same trees, for every input string and both start symbols. Complete for the language question given the trusted embedded runtime; no input is parsed.",
+        "design_ref": "DESIGN.md section 4, C16",
+        "level_note": "Trusted: the Lark 1.1.2 runtime embedded in _parser.py (no reference copy offline), Lark 1.3.1 as grammar compiler. Serialisation fields only one version has are skipped and named in the evidence.",
     },
     "C18": {
         "engine": "E1+E4+E5",
